@@ -42,15 +42,19 @@ type transTarget struct {
 	Fields           map[string]string // field selector chains (printed after the base expression, e.g. ".Metadata.Group") -> Lean projection
 	Literals         map[string]string // Go literals (as written, e.g. `""`) -> Lean term
 	Prelude          string            // `open …` line(s) the definition needs
+	VarInit          map[string]string // `var x T` declarations with a declared Lean initial value
+	CountAppends     map[string]bool   // functions `f` such that `x = f(x, …)` is translated as `x := x + 1`
+	IfConvert        bool              // an `if` whose branches only assign one variable becomes `v := if c then e1 else e2`
 }
 
 var transTargets []transTarget
 
 type tr struct {
-	t    transTarget
-	recv string
-	err  string
-	muts map[string]bool
+	pureFn bool
+	t      transTarget
+	recv   string
+	err    string
+	muts   map[string]bool
 }
 
 func (x *tr) fail(format string, a ...interface{}) string {
@@ -81,8 +85,33 @@ func isGetId(e ast.Expr) (ast.Expr, bool) {
 	return s.X, true
 }
 
+// txStr prints an expression for the Subst table: like exprStr, with binary / unary operators and
+// literals spelled out.
+func txStr(e ast.Expr) string {
+	switch v := e.(type) {
+	case *ast.BinaryExpr:
+		return txStr(v.X) + " " + v.Op.String() + " " + txStr(v.Y)
+	case *ast.ParenExpr:
+		return "(" + txStr(v.X) + ")"
+	case *ast.BasicLit:
+		return v.Value
+	case *ast.UnaryExpr:
+		return v.Op.String() + txStr(v.X)
+	case *ast.SelectorExpr:
+		return txStr(v.X) + "." + v.Sel.Name
+	case *ast.CallExpr:
+		return txStr(v.Fun) + "()"
+	}
+	return exprStr(e)
+}
+
 func (x *tr) expr(e ast.Expr) string {
 	if r, ok := x.t.Subst[exprStr(e)]; ok {
+		if _, isLit := e.(*ast.BasicLit); !isLit {
+			return r
+		}
+	}
+	if r, ok := x.t.Subst[txStr(e)]; ok {
 		if _, isLit := e.(*ast.BasicLit); !isLit {
 			return r
 		}
@@ -104,6 +133,9 @@ func (x *tr) expr(e ast.Expr) string {
 		}
 		if v.Kind == token.INT {
 			return "(" + v.Value + " : Int)"
+		}
+		if v.Kind == token.STRING && strings.HasPrefix(v.Value, "\"") && !strings.ContainsAny(v.Value[1:len(v.Value)-1], "\\\"") {
+			return v.Value
 		}
 		return x.fail("literal %s", v.Value)
 	case *ast.SelectorExpr:
@@ -290,6 +322,9 @@ func (x *tr) dropped(s ast.Stmt) bool {
 }
 
 func (x *tr) ret(val string) string {
+	if x.pureFn {
+		return "return " + val
+	}
 	if x.t.Ret == "Unit" {
 		return "return ((), items)"
 	}
@@ -322,6 +357,10 @@ func (x *tr) stmt(s ast.Stmt, ind string, out *[]string) {
 			vs := sp.(*ast.ValueSpec)
 			for i, n := range vs.Names {
 				val := x.t.Nil
+				if vi, ok := x.t.VarInit[n.Name]; ok {
+					emit("let mut " + n.Name + " := " + vi)
+					continue
+				}
 				if id, ok := vs.Type.(*ast.Ident); ok {
 					switch id.Name {
 					case "int":
@@ -365,6 +404,13 @@ func (x *tr) stmt(s ast.Stmt, ind string, out *[]string) {
 						return
 					}
 				}
+			}
+		}
+		// errs = multierror.Append(errs, …): the error list is translated as its length
+		if c, ok := v.Rhs[0].(*ast.CallExpr); ok && x.t.CountAppends[exprStr(c.Fun)] {
+			if lhs, ok := v.Lhs[0].(*ast.Ident); ok && len(c.Args) >= 1 && exprStr(c.Args[0]) == lhs.Name && v.Tok == token.ASSIGN {
+				emit(lhs.Name + " := " + lhs.Name + " + 1")
+				return
 			}
 		}
 		rhs := x.expr(v.Rhs[0])
@@ -412,6 +458,12 @@ func (x *tr) stmt(s ast.Stmt, ind string, out *[]string) {
 		if v.Init != nil {
 			emit(x.fail("if with init"))
 			return
+		}
+		if x.t.IfConvert {
+			if name, val, ok := x.condAssign(v); ok {
+				emit(name + " := " + val)
+				return
+			}
 		}
 		emit("if " + x.expr(v.Cond) + " then")
 		n := len(*out)
@@ -663,6 +715,61 @@ func findCaseLockBody(fd *ast.FuncDecl, name string) *ast.BlockStmt {
 	return res
 }
 
+// condAssign: an `if` statement (without init) whose branches each consist of exactly one assignment
+// `v = e` to the same variable v — or of one such `if` statement, recursively; a missing else branch
+// leaves v as it is — is the conditional assignment `v := if c then e1 else e2`.
+func (x *tr) condAssign(s *ast.IfStmt) (string, string, bool) {
+	one := func(b *ast.BlockStmt) (string, string, bool) {
+		if b == nil || len(b.List) != 1 {
+			return "", "", false
+		}
+		switch st := b.List[0].(type) {
+		case *ast.AssignStmt:
+			if st.Tok != token.ASSIGN || len(st.Lhs) != 1 || len(st.Rhs) != 1 {
+				return "", "", false
+			}
+			id, ok := st.Lhs[0].(*ast.Ident)
+			if !ok {
+				return "", "", false
+			}
+			if c, ok := st.Rhs[0].(*ast.CallExpr); ok && x.t.CountAppends[exprStr(c.Fun)] && len(c.Args) >= 1 && exprStr(c.Args[0]) == id.Name {
+				return id.Name, "(" + id.Name + " + 1)", true
+			}
+			return id.Name, x.expr(st.Rhs[0]), true
+		case *ast.IfStmt:
+			if st.Init != nil {
+				return "", "", false
+			}
+			return x.condAssign(st)
+		}
+		return "", "", false
+	}
+	if s.Init != nil {
+		return "", "", false
+	}
+	n1, v1, ok := one(s.Body)
+	if !ok {
+		return "", "", false
+	}
+	v2 := n1
+	switch e := s.Else.(type) {
+	case nil:
+	case *ast.BlockStmt:
+		n2, val2, ok := one(e)
+		if !ok || n2 != n1 {
+			return "", "", false
+		}
+		v2 = val2
+	case *ast.IfStmt:
+		n2, val2, ok := x.condAssign(e)
+		if !ok || n2 != n1 {
+			return "", "", false
+		}
+		v2 = val2
+	}
+	return n1, "(if " + x.expr(s.Cond) + " then " + v1 + " else " + v2 + ")", true
+}
+
 func endsWithReturn(list []ast.Stmt) bool {
 	if len(list) == 0 {
 		return false
@@ -711,7 +818,19 @@ func translate(t transTarget) (string, string) {
 		}
 		params = append([]string{}, t.ExtraParams...)
 	}
+	if t.Pure && t.Block == "" {
+		// the body's `return e` is the value
+		x.pureFn = true
+	}
 	x.stmts(list, "  ", &body)
+	if t.Pure && t.Block == "" {
+		if x.err != "" {
+			return "", x.err
+		}
+		hdr := fmt.Sprintf("/-- translated from `%s: %s` -/\ndef %s %s : %s := Id.run do\n",
+			t.File, t.Func, t.Lean, strings.Join(params, " "), t.Ret)
+		return t.Prelude + hdr + strings.Join(body, "\n") + "\n", ""
+	}
 	if t.Pure {
 		if x.err != "" {
 			return "", x.err
@@ -742,7 +861,7 @@ func translate(t transTarget) (string, string) {
 
 func genTrans() string {
 	var b strings.Builder
-	b.WriteString("/- GENERATED by /verif/extract (translate.go) from the current /repo sources on every check run. Do not edit, do not commit. -/\nimport ShellOp.TransPrelude\nimport ShellOp.Model.Combine\nset_option linter.unusedVariables false\nnamespace ShellOp.Trans\nopen ShellOp.TransPrelude\n\n")
+	b.WriteString("/- GENERATED by /verif/extract (translate.go) from the current /repo sources on every check run. Do not edit, do not commit. -/\nimport ShellOp.TransPrelude\nimport ShellOp.Model.Combine\nimport ShellOp.Model.Metrics\nset_option linter.unusedVariables false\nnamespace ShellOp.Trans\nopen ShellOp.TransPrelude\n\n")
 	for _, t := range transTargets {
 		def, err := translate(t)
 		if err != "" {
